@@ -275,3 +275,26 @@ REGISTRY["C18"] = {
     "floors": lambda tier: {"distinct_nontrivial": 2000, "queue.batches_of_2_or_more": 2000,
                             "waitlist.full_list_probes": 8, "lru.evictions": 10000, "waitlist.steps": 50000},
 }
+
+# ------------------------------------------------------------------------------------------- C17
+REGISTRY["C17"] = {
+    "level": "exploration",
+    "technique": "runtime monitor over a logical-clock history: every reader observation (iteration, contains, seek/next/prev) checked against the must/may sets of inserts completed before / begun before it; data-race and UB side under Miri many-seeds (and TSan/ASan in the thorough tier)",
+    "level_text": ("Exploration of sampled schedules: 1-8 inserters x 1-8 readers on dense, ascending, descending, random "
+                   "and shared-predecessor key sets; readers loop until the writers finish. The memory/ordering side "
+                   "(lifetime of nodes under a held iterator, release/acquire publication) is judged by Miri's "
+                   "interpreter over many schedule seeds on a scaled-down workload."),
+    "level_note": "Trusted: the SeqCst logical clock (stamps bracket the real calls), Miri's data-race and borrow checking. Schedules are sampled, not enumerated; evidence counts observations that saw a partial state.",
+    "rule": ("skiplist run = one multi-threaded run (key set of 16-1024 keys, one of five assignment patterns); every "
+             "observation is judged on its own; at quiescence the list must hold exactly the key set, and an iterator "
+             "held after its list is dropped must still yield the list. list run = concurrent prepends vs iterations "
+             "(exactly once, newest first per thread). Non-trivial = run in which >=1 observation overlapped the "
+             "inserts and saw a non-empty, non-final state. distinct = hash of the run shape."),
+    "assumptions": ["keys are distinct (the list asserts on duplicates)"],
+    "jobs": lambda tier: [
+        job("threads", "c17", shards=16, timeout=1500, runs=q(tier, 150, 5000), list_runs=q(tier, 40, 1000)),
+    ],
+    "floors": lambda tier: {"distinct_nontrivial": 500, "skiplist.observations_of_partial_state": 20000,
+                            "list.observations_of_partial_state": 300,
+                            "skiplist.iterator_outlives_list_probes": 500},
+}
